@@ -31,6 +31,55 @@ pub use service::parse_schema;
 
 struct GraphQLParser;
 
+/// The deepest nesting of brackets (`{`, `[`, `(`) that is handed to the
+/// recursive descent parser. Deeper inputs would exhaust the stack before any
+/// other limit can be checked.
+const MAX_NESTING_DEPTH: usize = 256;
+
+/// Scan the input, skipping strings and comments, and reject it if its
+/// brackets nest deeper than [`MAX_NESTING_DEPTH`].
+fn check_nesting_depth(input: &str) -> Result<()> {
+    let bytes = input.as_bytes();
+    let mut depth = 0usize;
+    let mut i = 0;
+    while i < bytes.len() {
+        match bytes[i] {
+            b'{' | b'[' | b'(' => {
+                depth += 1;
+                if depth > MAX_NESTING_DEPTH {
+                    return Err(Error::RecursionLimitExceeded);
+                }
+            }
+            b'}' | b']' | b')' => depth = depth.saturating_sub(1),
+            b'#' => {
+                while i < bytes.len() && bytes[i] != b'\n' && bytes[i] != b'\r' {
+                    i += 1;
+                }
+                continue;
+            }
+            b'"' => {
+                if bytes[i..].starts_with(b"\"\"\"") {
+                    i += 3;
+                    while i < bytes.len() && !bytes[i..].starts_with(b"\"\"\"") {
+                        i += if bytes[i..].starts_with(b"\\\"\"\"") { 4 } else { 1 };
+                    }
+                    i += 3;
+                } else {
+                    i += 1;
+                    while i < bytes.len() && bytes[i] != b'"' && bytes[i] != b'\n' && bytes[i] != b'\r' {
+                        i += if bytes[i] == b'\\' { 2 } else { 1 };
+                    }
+                    i += 1;
+                }
+                continue;
+            }
+            _ => {}
+        }
+        i += 1;
+    }
+    Ok(())
+}
+
 fn parse_operation_type(
     pair: Pair<Rule>,
     pc: &mut PositionCalculator,
